@@ -83,6 +83,8 @@ def main():
         ms = [m for m in ms if k in m["id"]]
     if "--benign" in args:
         ms = [m for m in ms if m.get("benign")]
+    if "--from" in args:
+        ms = ms[int(args[args.index("--from") + 1]):]
     jobs = int(args[args.index("-j") + 1]) if "-j" in args else 4
     bad = 0
     with ThreadPoolExecutor(max_workers=jobs) as ex:
